@@ -79,7 +79,7 @@ func (p *c17) sources(i int) (map[string]string, string, map[string]stick.Value,
 	case i == len(c17Hand)+1:
 		return c17Aux(), "gchild", ctx, nil
 	}
-	g := &gen.ProgGen{R: gen.Rng(p.seed, "c17", i), Hostile: false, Vars: c02vars, SingleEntryHashes: true,
+	g := &gen.ProgGen{R: gen.Rng(p.seed, "c17", i), Hostile: false, Vars: c02vars, IterVars: c02IterVars, SingleEntryHashes: true,
 		Filters: []string{"wrap", "inc", "up", "ident", "b1"}, Funcs: []string{"fn", "num", "truth", "pair", "ident"}, Tests: []string{"pos", "eq", "divisible by", "empty"}}
 	ts, _ := g.Program()
 	prog := &Program{Templates: ts, Main: "main"}
